@@ -115,7 +115,28 @@ pub fn install() {
         solana_program::program_stubs::set_syscall_stubs(Box::new(Stubs));
         let prev = std::panic::take_hook();
         std::panic::set_hook(Box::new(move |info| {
-            if info.payload().downcast_ref::<CpiAbort>().is_some() {
+            if IN_ENTRYPOINT.with(|f| f.get()) {
+                // A panic inside the program's `extern "C" fn entrypoint` cannot unwind out of it (the
+                // process would abort).  On-chain a panic is a failed instruction, so: report it to the
+                // worker that owns the bank and retire this executor thread for good.
+                let msg = if let Some(s) = info.payload().downcast_ref::<&str>() {
+                    s.to_string()
+                } else if let Some(s) = info.payload().downcast_ref::<String>() {
+                    s.clone()
+                } else {
+                    "panic".to_string()
+                };
+                let loc = info.location().map(|l| format!(" at {}:{}", l.file(), l.line())).unwrap_or_default();
+                REPLY_TX.with(|tx| {
+                    if let Some(tx) = tx.borrow().as_ref() {
+                        let _ = tx.send(Reply::Panicked(format!("{msg}{loc}")));
+                    }
+                });
+                loop {
+                    std::thread::park();
+                }
+            }
+            if QUIET_PANICS.with(|f| f.get()) {
                 return;
             }
             prev(info)
@@ -123,7 +144,88 @@ pub fn install() {
     });
 }
 
-struct CpiAbort;
+thread_local! {
+    static IN_ENTRYPOINT: std::cell::Cell<bool> = const { std::cell::Cell::new(false) };
+    static QUIET_PANICS: std::cell::Cell<bool> = const { std::cell::Cell::new(false) };
+    static REPLY_TX: RefCell<Option<std::sync::mpsc::Sender<Reply>>> = const { RefCell::new(None) };
+    static EXECUTOR: RefCell<Option<Executor>> = const { RefCell::new(None) };
+}
+
+/// silence the default panic message on this thread (used around code whose panics are expected and caught)
+pub fn quiet_panics(on: bool) {
+    QUIET_PANICS.with(|f| f.set(on));
+}
+
+struct Job {
+    ptr: usize,
+    clock: Clock,
+    program_id: Pubkey,
+}
+enum Reply {
+    Done { ret: u64, logs: Vec<String>, events: Vec<Vec<u8>>, cpi_error: Option<ProgramError>, steps: Vec<whirlpool::verif_trace::StepTrace> },
+    Panicked(String),
+}
+struct Executor {
+    job_tx: std::sync::mpsc::Sender<Job>,
+    reply_rx: std::sync::mpsc::Receiver<Reply>,
+}
+
+fn spawn_executor() -> Executor {
+    let (job_tx, job_rx) = std::sync::mpsc::channel::<Job>();
+    let (reply_tx, reply_rx) = std::sync::mpsc::channel::<Reply>();
+    std::thread::Builder::new()
+        .name("nsvm-exec".into())
+        .stack_size(32 << 20)
+        .spawn(move || {
+            REPLY_TX.with(|tx| *tx.borrow_mut() = Some(reply_tx.clone()));
+            while let Ok(job) = job_rx.recv() {
+                CTX.with(|c| {
+                    let mut c = c.borrow_mut();
+                    c.clock = job.clock.clone();
+                    c.program_stack = vec![job.program_id];
+                    c.logs.clear();
+                    c.events.clear();
+                    c.cpi_error = None;
+                    c.return_data = None;
+                });
+                let _ = whirlpool::verif_trace::take();
+                IN_ENTRYPOINT.with(|f| f.set(true));
+                let ret = unsafe { entrypoint(job.ptr as *mut u8) };
+                IN_ENTRYPOINT.with(|f| f.set(false));
+                let steps = whirlpool::verif_trace::take();
+                let (logs, events, cpi_error) = CTX.with(|c| {
+                    let mut c = c.borrow_mut();
+                    (std::mem::take(&mut c.logs), std::mem::take(&mut c.events), c.cpi_error.take())
+                });
+                if reply_tx.send(Reply::Done { ret, logs, events, cpi_error, steps }).is_err() {
+                    break;
+                }
+            }
+        })
+        .expect("spawn executor");
+    Executor { job_tx, reply_rx }
+}
+
+/// number of program panics seen by this process (each retires one executor thread)
+pub static PANICS: std::sync::atomic::AtomicU64 = std::sync::atomic::AtomicU64::new(0);
+
+fn run_entrypoint(ptr: *mut u8, clock: &Clock, program_id: Pubkey) -> Reply {
+    EXECUTOR.with(|e| {
+        let mut e = e.borrow_mut();
+        if e.is_none() {
+            *e = Some(spawn_executor());
+        }
+        let ex = e.as_ref().unwrap();
+        ex.job_tx.send(Job { ptr: ptr as usize, clock: clock.clone(), program_id }).expect("executor alive");
+        let reply = ex.reply_rx.recv().expect("executor reply");
+        if matches!(reply, Reply::Panicked(_)) {
+            // that executor thread is parked forever inside the panic hook; start a fresh one next time
+            PANICS.fetch_add(1, std::sync::atomic::Ordering::Relaxed);
+            *e = None;
+        }
+        reply
+    })
+}
 
 // ---- shims' extern hooks -------------------------------------------------------------------
 #[no_mangle]
@@ -209,8 +311,15 @@ pub fn verif_pino_invoke_signed(
         .collect();
     let seeds_ref: Vec<&[&[u8]]> = seeds_owned.iter().map(|v| v.as_slice()).collect();
     if let Err(e) = cpi(&ix, &infos, &seeds_ref) {
-        CTX.with(|c| c.borrow_mut().cpi_error = Some(e));
-        std::panic::panic_any(CpiAbort);
+        // On-chain a failed CPI aborts the whole instruction inside the VM.  Here the failure is latched and the
+        // instruction is failed (all its effects discarded) when the entrypoint returns; whatever the program
+        // does after this point cannot be observed.
+        CTX.with(|c| {
+            let mut c = c.borrow_mut();
+            if c.cpi_error.is_none() {
+                c.cpi_error = Some(e);
+            }
+        });
     }
 }
 
@@ -279,6 +388,8 @@ fn cpi(ix: &Instruction, infos: &[AccountInfo], signers_seeds: &[&[&[u8]]]) -> P
     r
 }
 
+static METADATA_PROGRAM: std::sync::OnceLock<Pubkey> = std::sync::OnceLock::new();
+
 fn dispatch(program_id: &Pubkey, infos: &[AccountInfo], data: &[u8]) -> ProgramResult {
     if *program_id == system_program::ID {
         system(infos, data)
@@ -290,6 +401,10 @@ fn dispatch(program_id: &Pubkey, infos: &[AccountInfo], data: &[u8]) -> ProgramR
         spl_associated_token_account::processor::process_instruction(program_id, infos, data)
     } else if *program_id == spl_memo::ID {
         spl_memo::processor::process_instruction(program_id, infos, data)
+    } else if *program_id == *METADATA_PROGRAM.get_or_init(|| std::str::FromStr::from_str("metaqbxxUerdq28cj1RbAWkYQm3ybzjb6a8bt518x1s").unwrap()) {
+        // Metaplex token-metadata has no processor crate in the cache: its CPI (only reached from the
+        // `*_with_metadata` instructions) is accepted without effect.  Nothing is asserted about metadata accounts.
+        Ok(())
     } else {
         Err(ProgramError::IncorrectProgramId)
     }
@@ -448,32 +563,18 @@ impl Bank {
         let ptr = backing.as_mut_ptr() as *mut u8;
         unsafe { std::ptr::copy_nonoverlapping(buf.as_ptr(), ptr, buf.len()) };
 
-        CTX.with(|c| {
-            let mut c = c.borrow_mut();
-            c.clock = self.clock.clone();
-            c.program_stack = vec![ix.program_id];
-            c.logs.clear();
-            c.events.clear();
-            c.cpi_error = None;
-            c.return_data = None;
-        });
-        let _ = whirlpool::verif_trace::take();
-        let r = std::panic::catch_unwind(std::panic::AssertUnwindSafe(|| unsafe { entrypoint(ptr) }));
-        let steps = whirlpool::verif_trace::take();
-        let (logs, events, cpi_error) = CTX.with(|c| {
-            let mut c = c.borrow_mut();
-            (std::mem::take(&mut c.logs), std::mem::take(&mut c.events), c.cpi_error.take())
-        });
-        let mut result = match r {
-            Ok(0) => Ok(()),
-            Ok(code) => Err(code),
-            Err(p) => {
-                if p.downcast_ref::<CpiAbort>().is_some() {
-                    Err(u64::from(cpi_error.unwrap_or(ProgramError::Custom(0xdead))))
+        let (mut result, logs, events, steps) = match run_entrypoint(ptr, &self.clock, ix.program_id) {
+            Reply::Done { ret, logs, events, cpi_error, steps } => {
+                let result = if let Some(e) = cpi_error {
+                    Err(u64::from(e))
+                } else if ret == 0 {
+                    Ok(())
                 } else {
-                    Err(ERR_PANIC) // program panicked
-                }
+                    Err(ret)
+                };
+                (result, logs, events, steps)
             }
+            Reply::Panicked(msg) => (Err(ERR_PANIC), vec![format!("program panicked: {msg}")], vec![], vec![]),
         };
         if result.is_ok() {
             // read back, apply the runtime's post-execution rules, then commit
